@@ -79,8 +79,12 @@ func (c *RedialPacketConn) dialLoop() {
 // packets in the receive queue, and takes packets from the send queue and calls
 // WriteTo on them, making the current net.PacketConn active.
 func (c *RedialPacketConn) exchange(conn net.PacketConn) {
-	readErrCh := make(chan error)
-	writeErrCh := make(chan error)
+	// Each channel receives at most one error. They are buffered so that the
+	// goroutine whose direction fails second (after exchange has already
+	// returned and nobody is receiving any more) can send its error and
+	// terminate instead of blocking forever.
+	readErrCh := make(chan error, 1)
+	writeErrCh := make(chan error, 1)
 
 	go func() {
 		defer close(readErrCh)
